@@ -31,7 +31,7 @@ CONFIGS = {
     "dbg32": ("gcc", "-O0 -g " + HOOK + " -DBEE2_VERIF_W32", ""),
     "o1": ("gcc", "-O1 -fno-strict-aliasing -DNDEBUG", ""),
     "o2": ("gcc", "-O2 -fno-strict-aliasing -DNDEBUG", ""),
-    "clangrel": ("clang-14", REL + " -g", ""),
+    "clangrel": ("clang-14", REL + " -g -gdwarf-4", ""),
     "bash32": ("gcc", REL + " -DBASH_32", ""),
     "sse2": ("gcc", REL + " -DBASH_SSE2 -msse2", ""),
     "avx2": ("gcc", REL + " -DBASH_AVX2 -mavx2", ""),
